@@ -65,6 +65,14 @@ V_aero_distance(e) ==
   ELSE IF e.brg < 0 \/ e.brg >= 360000 THEN "bearing_out_of_range"
   ELSE "ok"
 
+\* the radius argument H (a multiple of 500 m, e.hk = H / 500): d(H) - d(0) = d(0) * H / r_earth, r_earth / 500 = 12742;
+\* e.d0, e.dh, e.dd (default H) in centimetres (legs below 200 km) or metres; tolerance 2 units + 1e-6 relative
+V_aero_distance_scale(e) ==
+  IF ~SaneAll(<<e.d0, e.dh, e.dd>>) \/ e.d0 < 0 \/ e.d0 > 25000000 THEN "distance_out_of_range"
+  ELSE IF e.dd # e.d0 THEN "distance_default_radius_differs_from_H_0"
+  ELSE IF AbsV((e.dh - e.d0) - RDiv(e.d0 * e.hk, 12742)) > 2 + (e.d0 \div 1000000) THEN "distance_does_not_scale_with_the_radius"
+  ELSE "ok"
+
 \* scalar and numpy-array arguments give the same value
 V_aero_same(e) == IF e.a = e.b THEN "ok" ELSE "scalar_and_array_results_differ"
 =============================================================================
